@@ -91,6 +91,8 @@ type Explorer struct {
 	started     time.Time
 	skippedInit map[string]bool
 	idle        time.Duration
+	unknownVios int
+	stoppedOnViolation bool
 	modelTime   time.Duration
 	truncated   bool
 }
@@ -575,6 +577,18 @@ func (ex *Explorer) record(in *Interp, p *Path, end pathEnd, vios []*Violation) 
 		if ex.vioSeen[v.Sig] == 1 {
 			ex.violations = append(ex.violations, v)
 		}
+		if !ex.cfg.knownSigs[v.Sig] {
+			ex.unknownVios++
+		}
+	}
+	if end.kind == "unwind-exceeded" {
+		ex.unknownVios++
+	}
+	// a violation that is not a listed finding decides the check: no need to finish the exploration
+	if ex.unknownVios >= 25 && !ex.stop {
+		ex.stop = true
+		ex.stoppedOnViolation = true
+		ex.cond.Broadcast()
 	}
 	if ex.cfg.MaxPaths > 0 && ex.paths >= ex.cfg.MaxPaths && !ex.stop {
 		ex.stop = true
